@@ -225,18 +225,17 @@ class FileInfo:
         # noinspection PyProtectedMember
         prefix = self.vpk._dir_prefix
 
-        if prefix is None:
-            self.start_data = data
-            self.arch_len = 0
-            return
-
-        if self.vpk.dir_limit is None:
-            # No limit, everything is stored in the directory.
-            self.start_data = data
-            arch_data = b''
+        # The preload size is a 16-bit field in the directory entry.
+        limit = self.vpk.dir_limit
+        if prefix is None or limit is None:
+            # Singular VPK or no limit: everything is stored in this file, with whatever
+            # doesn't fit in the preload placed after the file tree.
+            limit = 0xFFFF
+            arch_index = None
         else:
-            self.start_data = data[:self.vpk.dir_limit]
-            arch_data = data[self.vpk.dir_limit:]
+            limit = min(limit, 0xFFFF)
+        self.start_data = data[:limit]
+        arch_data = data[limit:]
 
         self.arch_len = len(arch_data)
 
